@@ -90,6 +90,24 @@ def run(model: Model, rep, tier: str) -> None:
         rep.fail("C16-O3", F, "BilinearForm._kernel", "_kernel:effects",
                  f"the kernel has a side effect ({e.detail}) that all "
                  f"workers perform concurrently", e.line)
+    # ---- what an integrand gets when it indexes a field: a private array
+    # (np.array(self)[key] copies), so an integrand that works in place on a
+    # component ('ux = u[0]; ux *= w.rho') cannot reach the basis arrays all
+    # workers - and all later pairs - share
+    gi = model.func("skfem.element.discrete_field",
+                    "DiscreteField.__getitem__")
+    sg = an.summarize(gi)
+    if not sg.returns:
+        rep.ok("C16-O3", "DiscreteField.__getitem__:private",
+               "indexing a field returns newly allocated storage")
+    else:
+        rep.fail("C16-O3", gi.path, "DiscreteField.__getitem__",
+                 "DiscreteField.__getitem__:private",
+                 f"indexing a field returns a view of the field itself "
+                 f"(aliases {sorted(sg.returns)}): an integrand updating a "
+                 f"component in place rewrites the basis arrays shared by "
+                 f"all workers, and each pair's value then depends on the "
+                 f"schedule", gi.lineno)
     # ---- symbolic runs
     for sizes in ({"u": 2, "v": 3}, {"u": 3, "v": 2}, {"u": 1, "v": 1}):
         npairs = sizes["u"] * sizes["v"]
@@ -228,6 +246,9 @@ _THR = """            threads = [
             ]
 """
 MUTANTS = [
+    ("indexing a field hands out a view of the shared basis array",
+     ("skfem/element/discrete_field.py", "        return np.array(self)[key]",
+      "        return np.asarray(self)[key]"), "C16-O3"),
     ("workers take a plain-dict copy of the parameters",
      (_B, "    def _threaded_kernel(self, data, ix, ubasis, vbasis, wdict, "
       "dx):\n", "    def _threaded_kernel(self, data, ix, ubasis, vbasis, "
@@ -290,6 +311,9 @@ MUTANTS = [
      "C16-O6"),
 ]
 TWINS = [
+    ("indexing a field copies after selecting",
+     ("skfem/element/discrete_field.py", "        return np.array(self)[key]",
+      "        return np.asarray(self)[key].copy()")),
     ("workers address a flattened view with the trial-side stride",
      (_B, "            data[i, j] = self._kernel(\n                "
       "ubasis[j],", "            data.reshape(-1, data.shape[-1])["
